@@ -538,6 +538,7 @@ def regenerate(eng=None):
             out.append("%s %s" % (name, fn(eng)))
         except Exception as e:
             out.append("%s FAILED" % name)
+            _last["failed_" + name] = True
             if first is None:
                 first = e
     if first is not None:
@@ -2492,7 +2493,7 @@ def extra_checks(eng):
         sreg = eng.driver.batch([{"id": ID, "entry": "srcregistry"}])[0]["ok"]
         chk("regenerated loop: the interpreter gives it a state (it does not raise, stays inside what T2 assumes)",
             sreg is not None, "Loop.runTable = none")
-        if sreg is not None:
+        if sreg is not None and not _last.get("failed_T2b"):      # (after a TranslationError the file is the last good one)
             against(sreg, "regenerated loop")
             eng.count("regenerated_loop", "state = hand-written `generated`: %s" % sreg["is_model"])
     except Exception as e:
